@@ -16,6 +16,15 @@ Tie (correspondence, every run, against the library rebuilt from the repository'
      entry, image = valid triples, no duplicates, both lookups inverse, unknown -> IndexSize, getInfo throws);
      failing lattices are shrunk (drop sites, reduce counts, canonical labels) and reported with the canonical
      minimal lattice as key.  boost::hash injectivity on the labels that occur is checked per case.
+ (A') re-prepare histories: a repeated prepare() on the SAME object is supported since repository commit 1fd1f00 ("starts from
+     scratch").  For every generated lattice h_c18 constructs one IndexClassification per history and calls prepare(m1);
+     prepare(m2); prepare(m3) on it (quick: 001, 011, 100, 110 = every pair (m1,m2) and every transition into a third call;
+     thorough: all 8); after EVERY call the object is dumped like after a single call and must be exactly what a single
+     prepare(m_last) on a fresh object gives: the property text evaluated on the dump (count, bijection onto 0..N-1, getIndex /
+     getInfo mutual inverses, unknown -> IndexSize), byte-equality with the fresh-object dump and with the extracted model's
+     table for m_last.  Model side: theories/IndexReprepare.v (object state across calls), Properties_C18.prepare_twice_is_last /
+     prepare_history_is_last (the table after any history of calls is the table of the last call).  A failing history is
+     shrunk (shorter history, fewer sites, smaller counts, canonical labels) and reported with the history as part of the key.
  (B) differential relabelling runs of the whole ED chain (h_c18_phys): the same random small model built with the
      original / renamed labels, original / permuted order of addSite calls, both modes; eigenvalues, occupancies,
      double occupancies, <c+_i c_j>, G_ij(i w_n) compared after applying the permutation pi computed from the two
@@ -46,6 +55,17 @@ def dec(t):
 def case_line(cid, mode, calls, queries):
     """calls: [(label bytes, orb, spin)], queries: [(label bytes, o, s)]"""
     t = ["case", str(cid), str(int(mode)), str(len(calls))]
+    for l, o, s in calls:
+        t += [enc(l), str(o), str(s)]
+    t.append(str(len(queries)))
+    for l, o, s in queries:
+        t += [enc(l), str(o), str(s)]
+    return " ".join(t)
+
+
+def hist_line(cid, hists, calls, queries):
+    """hists: mode strings over {0,1}: prepare() called once per character on one object"""
+    t = ["hist", str(cid), ",".join(hists), str(len(calls))]
     for l, o, s in calls:
         t += [enc(l), str(o), str(s)]
     t.append(str(len(queries)))
@@ -235,6 +255,26 @@ class IndexRunner:
         self.chk = chk
         self.h = pv.build_harness("h_c18")
         self.drv = pv.build_driver("driver_c18", ["C18_model"])
+        self.cache = {}            # (mode, calls, queries) -> result dict of the single-prepare run (filled by index_part)
+        self.variant_tags = []     # which variants of the model the code was found to be (filled by index_part)
+
+    def run_hist(self, cases):
+        """cases: [(histories [mode string], calls, queries)] -> list of dicts {(history, k): parsed S line}; harness only.
+        A child that died is reported under the key "DIED"."""
+        inp = "".join(hist_line(i, hs, c, q) + "\n" for i, (hs, c, q) in enumerate(cases))
+        rc, out, err = pv.run_harness(self.h, inp, timeout=900)
+        if rc != 0:
+            raise pv.BuildError("h_c18 failed (exit %d)" % rc, err[-2000:])
+        res = [{} for _ in cases]
+        for l in out.split("\n"):
+            if l.startswith("S "):
+                d = parse_dump(l)
+                ident = d["id"].split(":")
+                if len(ident) == 3:
+                    res[int(ident[0])][(ident[1], int(ident[2]))] = d
+                else:
+                    res[int(ident[0])]["DIED"] = d
+        return res
 
     def run(self, cases, want_model=True):
         """cases: [(mode, calls, queries)] -> list of dicts {R, H, M0, M1}"""
@@ -303,6 +343,7 @@ def index_part(chk, runner, cases):
     collisions = []
     for (mode, calls, queries), r in zip(cases, res):
         R = r.get("R")
+        runner.cache[(int(mode), tuple(calls), tuple(queries))] = r
         canon = describe(mode, calls)
         sig = signature(mode, calls)
         sm = site_map(calls)
@@ -338,6 +379,7 @@ def index_part(chk, runner, cases):
         variant = "repaired (`continue`, Index.v fixed=true)"
     else:
         variant = "neither"
+    runner.variant_tags = [tag for tag in ("M0", "M1") if agree[tag] == n]
     chk.extra["index_cases"] = n
     chk.extra["index_cases_discriminating_variants"] = discriminating
     chk.extra["agree_with_model_as_written"] = agree["M0"]
@@ -377,6 +419,164 @@ def index_part(chk, runner, cases):
             if bad and bad[0] not in explained:
                 chk.tie_broken("Index.v vs IndexClassification", "first disagreement: %r" % (bad,))
     return unsafe
+
+
+# --------------------------------------------------------------------------------------------
+# re-prepare histories: prepare(m1); prepare(m2); ... on one object
+
+HISTS_QUICK = ["001", "011", "100", "110"]         # every pair (m1,m2), every transition m2 -> m3
+HISTS_ALL = ["".join(p) for p in itertools.product("01", repeat=3)]
+
+
+def hist_step_failures(mode, calls, queries, S, fresh, models):
+    """one dump S taken after a call prepare(mode) that was not the first one on its object.
+    Returns (property failures, correspondence failures): the property text on the dump / the dump against a fresh object's
+    and the model's table for `mode`."""
+    prop = spec_failures(mode, calls, S) + spec_query_failures(calls, queries, S)
+    if "DIED" in S.get("flags", []):
+        return prop, []
+    corr = []
+    body = norm_body(S)
+    if fresh is not None and norm_body(fresh) != body:
+        corr.append("differs from a fresh object after prepare(%s)" % ("true" if mode else "false"))
+    for tag, M in models:
+        if M is not None and norm_body(M) != body:
+            corr.append("differs from the model's table for prepare(%s) (%s)" % ("true" if mode else "false", tag))
+    return prop, corr
+
+
+def hist_failures(runner, hists, calls, queries, res, unsafe):
+    """all failing steps of the histories of one lattice: [(history, k, property failures, correspondence failures)]"""
+    out = []
+    sm = tuple(site_map(calls))
+    if "DIED" in res:
+        return [(hists[0], 0, ["harness child died during the histories (%s)" % res["DIED"]["body"]], [])]
+    for h in hists:
+        for k in range(len(h)):
+            S = res.get((h, k))
+            if S is None:
+                if k > 0 and res.get((h, k - 1), {}).get("prepare") == "ok":
+                    out.append((h, k, ["no dump after call %d of history %s" % (k, h)], []))
+                break
+            mode = int(h[k])
+            if (mode, sm) in unsafe:
+                break        # a single prepare(mode) on a fresh object already fails on this lattice: reported by the index part
+            single = runner.cache.get((mode, tuple(calls), tuple(queries)), {})
+            models = [(tag, single.get(tag)) for tag in runner.variant_tags]
+            prop, corr = hist_step_failures(mode, calls, queries, S, single.get("R"), models)
+            if prop or corr:
+                out.append((h, k, prop, corr))
+            if S.get("prepare") != "ok":
+                break
+    return out
+
+
+def describe_hist(h, calls):
+    return "prepare(%s) on one object, sites=%s" % ("); prepare(".join("true" if c == "1" else "false" for c in h),
+                                                   describe(0, calls).split("sites=")[1])
+
+
+def shrink_hist(runner, h, k, calls, unsafe):
+    """greedy: shortest prefix of the history that still fails, then drop calls of the prefix, drop sites, reduce counts,
+    canonical labels.  The single-prepare results needed for the comparison are produced on the way."""
+    def fails(h2, c2):
+        q = std_queries(c2)
+        single = runner.run([(m, c2, q) for m in (0, 1)])
+        for m, r in zip((0, 1), single):
+            runner.cache[(m, tuple(c2), tuple(q))] = r
+            if "R" not in r or spec_failures(m, c2, r["R"]):
+                return False           # not a lattice on which a single call works: a different defect
+        res = runner.run_hist([([h2], c2, q)])[0]
+        f = hist_failures(runner, [h2], c2, q, res, unsafe)
+        return bool(f) and bool(f[0][2] or f[0][3])
+    cur_h, cur = h[:k + 1], list(calls)
+    for _ in range(40):
+        cands = []
+        for i in range(len(cur_h) - 1):
+            if len(cur_h) > 2:
+                cands.append((cur_h[:i] + cur_h[i + 1:], cur))
+        for i in range(len(cur)):
+            if len(cur) > 1:
+                cands.append((cur_h, cur[:i] + cur[i + 1:]))
+        for i, (l, o, s) in enumerate(cur):
+            if o > 1:
+                cands.append((cur_h, cur[:i] + [(l, o - 1, s)] + cur[i + 1:]))
+            if s > 1:
+                cands.append((cur_h, cur[:i] + [(l, o, s - 1)] + cur[i + 1:]))
+        sm = site_map(cur)
+        canon = [(n, o, s) for n, (_, o, s) in zip(canon_labels(len(sm)), sm)]
+        if canon != cur:
+            cands.append((cur_h, canon))
+        nxt = next((c for c in cands if fails(*c)), None)
+        if nxt is None:
+            break
+        cur_h, cur = nxt
+    return cur_h, cur
+
+
+def reprepare_part(chk, runner, lattices, unsafe, hists):
+    """lattices: [(calls, queries)] for which index_part has run both modes (results in runner.cache)."""
+    cases = [(hists, c, q) for c, q in lattices]
+    res = runner.run_hist(cases)
+    nsteps = 0
+    failing = []        # (history, k, calls, property failures, correspondence failures)
+    for (hs, calls, queries), r in zip(cases, res):
+        fl = hist_failures(runner, hs, calls, queries, r, unsafe)
+        sm = site_map(calls)
+        two_orders = len(set(norm_body(runner.cache.get((m, tuple(calls), tuple(queries)), {}).get("R", {"body": str(m)})).split(" vec=")[-1].split(" ")[0]
+                             for m in (0, 1))) > 1
+        for h in hs:
+            nsteps += sum(1 for k in range(len(h)) if (h, k) in r)
+            chk.case("H " + h + " " + describe(0, calls),
+                     "reprepare history=%s %s sites=%d" % (h, "orders-differ" if two_orders else "orders-coincide", len(sm)),
+                     nontrivial=two_orders and len(set(h)) > 1,
+                     sample=None)
+            if two_orders and h == hs[1] and len(sm) == 3 and "reprepare_sample" not in chk.extra:
+                chk.extra["reprepare_sample"] = {"history": describe_hist(h, calls),
+                                                 "after_each_call": [r.get((h, k), {}).get("body", "")[:300] for k in range(len(h))]}
+        for h, k, prop, corr in fl:
+            failing.append((h, k, calls, prop, corr))
+    chk.extra["reprepare_lattices"] = len(cases)
+    chk.extra["reprepare_histories"] = len(cases) * len(hists)
+    chk.extra["reprepare_dumps_compared"] = nsteps
+    chk.extra["reprepare_failing_steps"] = len(failing)
+    if not failing:
+        return
+    # one report per kind of failure (first property failure, else first correspondence failure), smallest lattice first
+    groups = {}
+    for it in failing:
+        kind = (it[3] or it[4])[0].split(" (")[0]
+        groups.setdefault((bool(it[3]), kind), []).append(it)
+    for (is_prop, kind), items in sorted(groups.items(), key=lambda kv: (not kv[0][0], kv[0][1])):
+        items.sort(key=lambda it: (it[1], len(it[2]), sum(o * s for _, o, s in it[2]), describe(0, it[2])))
+        h, k, calls, prop, corr = items[0]
+        sh, sc = shrink_hist(runner, h, k, calls, unsafe)
+        q = std_queries(sc)
+        single = runner.run([(m, sc, q) for m in (0, 1)])
+        for m, rr in zip((0, 1), single):
+            runner.cache[(m, tuple(sc), tuple(q))] = rr
+        rs = runner.run_hist([([sh], sc, q)])[0]
+        fl = hist_failures(runner, [sh], sc, q, rs, unsafe)
+        if not fl:                      # the shrunk input does not reproduce (should not happen): report the original
+            sh, sc, q = h[:k + 1], calls, std_queries(calls)
+            rs = runner.run_hist([([sh], sc, q)])[0]
+            fl = [(sh, k, prop, corr)]
+        _, kk, p2, c2 = fl[0]
+        mlast = int(sh[kk])
+        S = rs.get((sh, kk), {})
+        fresh = runner.cache.get((mlast, tuple(sc), tuple(q)), {})
+        key = "reprepare " + describe_hist(sh[:kk + 1], sc)
+        what = ("%s: after call %d the object is not what a single prepare(%s) gives: %s [%d of %d explored history steps fail this way]" % (
+            describe_hist(sh[:kk + 1], sc), kk + 1, "true" if mlast else "false", "; ".join(p2 + c2), len(items), nsteps))
+        rep = {"kind": "reprepare", "hist": hist_line(0, [sh[:kk + 1]], sc, q), "history": sh[:kk + 1], "lattice": describe(0, sc).split("sites=")[1],
+               "after_history": S.get("body"), "fresh_object_prepare_last": fresh.get("R", {}).get("body"),
+               "model_prepare_last": {tag: fresh.get(tag, {}).get("body") for tag in ("M0", "M1")},
+               "property_failures": p2, "correspondence_failures": c2,
+               "theorem": "prepare_twice_is_last / prepare_history_is_last (Properties_C18.v, model theories/IndexReprepare.v)"}
+        if p2:
+            chk.violation(key, what, rep)
+        else:
+            chk.tie_broken("IndexReprepare.v vs IndexClassification::prepare called again", what)
 
 
 # --------------------------------------------------------------------------------------------
@@ -725,7 +925,9 @@ def common(chk):
     chk.assume += ["boost::hash<std::string> is injective on the labels that occur (checked for every case by the harness' hash dump)",
                    "std::map<std::string,...> iterates in byte-lexicographic key order (checked: the sites= field of every case)",
                    "orbital and spin counts < 65536 (unsigned short narrowing is outside the model)",
-                   "the index table is the one after the last prepare() call (a second call rebuilds it since 1fd1f00)",
+                   "a repeated prepare() on one object is specified as `starts from scratch' (repository commit 1fd1f00, comment at the top of prepare): "
+                   "the re-prepare histories require the object after every call to equal a fresh object after prepare(m_last); "
+                   "histories of up to three calls, no addSite between the calls",
                    "operator level: proved for every permutation (sem_permute_poly, hamiltonian_matrix_relabel) and the observables of the transported eigen-system (observables_relabel_partial); "
                    "independence of the observables from the choice of eigen-decomposition is not formalised: covered by the differential ED runs",
                    "differential runs: real-valued build, models with <= 5 modes, dyadic couplings, tolerance 1e-9 absolute + relative; "
@@ -741,12 +943,23 @@ def run(chk):
     plans = phys_plans(chk, 150 if quick else 1200, 5)
     cases = gen_index_cases(chk, quick) + phys_index_cases(plans)
     unsafe = index_part(chk, runner, cases)      # (mode, site map) pairs whose index table has null entries
+    lattices, seen = [], set()
+    for mode, calls, queries in cases:
+        k = (tuple(calls), tuple(queries))
+        if k not in seen and all((m,) + k in runner.cache for m in (0, 1)):
+            seen.add(k)
+            lattices.append((calls, queries))
+    reprepare_part(chk, runner, lattices, unsafe, HISTS_QUICK if quick else HISTS_ALL)
     phys_part(chk, plans, unsafe)
     chk.rule = ("index: exhaustive sweep of 1..3 sites x (1..2 orbitals, 1..3 spins) [thorough: 1..4 sites x 1..3 x 1..3] with canonical labels, "
                 "the spin shapes again with labels whose byte order differs from the call order, random lattices (1..4 sites, 1..3 orbitals, "
                 "1..3 spins, labels from a pool of prefixes / different lengths / bytes >= 0x80 / empty label, 3% repeated labels), a few with "
                 "5..9 sites; both modes each; every case is compared byte for byte with both variants of the extracted model and evaluated "
                 "against the property text; distinct = distinct (mode, call sequence); non-trivial = more than one mode. "
+                "re-prepare: every lattice of the index part (both modes present) x histories of three prepare() calls on one object "
+                "(quick: 001, 011, 100, 110; thorough: all 8), the object dumped after every call and compared with the property text, a fresh "
+                "object's dump and the model's table for the last mode; distinct = (history, call sequence); non-trivial = the two "
+                "orders differ on the lattice and the history switches mode. "
                 "physics: random hermitian models (levels, hoppings, density-density, pair-hopping, occasionally pairing terms) on <= 5 "
                 "modes, each built 4-5 times (mode switch, relabelling that reverses the label order, permuted addSite calls, "
                 "all combined) and compared with the base copy through pi; copies whose index table has null entries are not run "
@@ -778,6 +991,28 @@ def replay(chk, path):
         print("property on the implementation's output:", "; ".join(fs) if fs else "holds")
         if fs:
             chk.violation(r.get("key"), "; ".join(fs), rp)
+    elif isinstance(rp, dict) and rp.get("kind") == "reprepare":
+        runner = IndexRunner(chk)
+        t = rp["hist"].split()
+        h, ns = t[2], int(t[3])
+        calls = [(dec(t[4 + 3 * k]), int(t[5 + 3 * k]), int(t[6 + 3 * k])) for k in range(ns)]
+        q = std_queries(calls)
+        single = runner.run([(m, calls, q) for m in (0, 1)])
+        for m, rr in zip((0, 1), single):
+            runner.cache[(m, tuple(calls), tuple(q))] = rr
+        runner.variant_tags = [tag for tag in ("M0", "M1") if all(tag in rr and norm_body(rr[tag]) == norm_body(rr["R"]) for rr in single)]
+        res = runner.run_hist([([h], calls, q)])[0]
+        for k in range(len(h)):
+            print("after call %d prepare(%s): %s" % (k + 1, h[k], res.get((h, k), {}).get("body")))
+        for m in (0, 1):
+            print("fresh object prepare(%d):   %s" % (m, single[m].get("R", {}).get("body")))
+        fl = hist_failures(runner, [h], calls, q, res, set())
+        print("failing steps:", [(hh, k + 1, p, c) for hh, k, p, c in fl] if fl else "none")
+        for hh, k, p, c in fl:
+            if p:
+                chk.violation(r.get("key"), "; ".join(p + c), rp)
+            else:
+                chk.tie_broken("IndexReprepare.v vs IndexClassification::prepare called again", "; ".join(c))
     elif isinstance(rp, dict) and rp.get("kind") == "phys":
         hphys = pv.build_harness("h_c18_phys")
         rc, res, err = run_phys(hphys, [("a", rp["base"]), ("b", rp["variant"])])
